@@ -15,6 +15,15 @@
 #include <stdatomic.h>
 #include <stdint.h>
 
+#ifdef LIBFIBER_VERIF
+/* verification hooks (off unless LIBFIBER_VERIF is defined): the operations
+   below are inline assembly, invisible to compiler instrumentation */
+extern void libfiber_verif_fence(int kind);
+extern void libfiber_verif_relax(void);
+extern void libfiber_verif_cas2_pre(volatile void* location);
+extern void libfiber_verif_cas2_post(volatile void* location, int result);
+#endif
+
 _Static_assert(ATOMIC_BOOL_LOCK_FREE == 2, "");
 _Static_assert(ATOMIC_CHAR_LOCK_FREE == 2, "");
 _Static_assert(ATOMIC_CHAR16_T_LOCK_FREE == 2, "");
@@ -28,6 +37,9 @@ _Static_assert(ATOMIC_POINTER_LOCK_FREE == 2, "");
 
 /* this barrier orders writes against other writes */
 static inline void write_barrier() {
+#ifdef LIBFIBER_VERIF
+  libfiber_verif_fence(1);
+#endif
 #if defined(__i386__) || defined(__x86_64__)
   __asm__ __volatile__("" : : : "memory");
 #else
@@ -37,6 +49,9 @@ static inline void write_barrier() {
 
 /* this barrier orders writes against reads */
 static inline void store_load_barrier() {
+#ifdef LIBFIBER_VERIF
+  libfiber_verif_fence(2);
+#endif
 #if defined(__i386__)
   __asm__ __volatile__("lock; addl $0,0(%%esp)" : : : "memory");
 #elif defined(__x86_64__)
@@ -48,6 +63,9 @@ static inline void store_load_barrier() {
 
 /* this barrier orders loads against other loads */
 static inline void load_load_barrier() {
+#ifdef LIBFIBER_VERIF
+  libfiber_verif_fence(3);
+#endif
 #if defined(__i386__) || defined(__x86_64__)
   __asm__ __volatile__("" : : : "memory");
 #else
@@ -56,6 +74,9 @@ static inline void load_load_barrier() {
 }
 
 static inline void cpu_relax() {
+#ifdef LIBFIBER_VERIF
+  libfiber_verif_relax();
+#endif
 #if defined(__i386__) || defined(__x86_64__)
   __asm__ __volatile__("pause" : : : "memory");
 #else
@@ -77,6 +98,9 @@ static inline int compare_and_swap2(volatile pointer_pair_t* location,
       (uint64_t*)location, *(uint64_t*)original_value, *(uint64_t*)new_value);
 #elif defined(__x86_64__)
   char result;
+#ifdef LIBFIBER_VERIF
+  libfiber_verif_cas2_pre(location);
+#endif
   __asm__ __volatile__(
       "lock cmpxchg16b %1\n\t"
       "setz %0"
@@ -84,6 +108,9 @@ static inline int compare_and_swap2(volatile pointer_pair_t* location,
       : "d"(original_value->high), "a"(original_value->low),
         "c"(new_value->high), "b"(new_value->low)
       : "cc");
+#ifdef LIBFIBER_VERIF
+  libfiber_verif_cas2_post(location, result);
+#endif
   return result;
 #else
 #error please define a compare_and_swap2()
